@@ -39,8 +39,9 @@ theorem isolated (T : Tables) (w : World) (op : Op) (hb : Bounded w) (hs : Separ
   unfold validateH
   rw [hdesc]
 
-/-- **separated_preserved**: every admissible operation — class definition, instantiation with any
-configuration, `setProperty` on an instance, replacement of an enum datatype — keeps the invariants: no
+/-- **separated_preserved**: every admissible operation — class definition (accessibles and module properties),
+instantiation with any configuration, `setProperty` on a parameter of an instance or on a member datatype of its
+datatype at any path, replacement of an enum datatype — keeps the invariants: no
 object reachable from an instance is reachable from any other owner, all references point into the heap. -/
 theorem separated_preserved (T : Tables) (w : World) (op : Op) (hadm : Admissible w op) (hb : Bounded w)
     (hs : Separated w) : Bounded (step T w op) ∧ Separated (step T w op) := by
@@ -111,6 +112,97 @@ theorem later_instances_fresh (T : Tables) (c n : Name) (cfg : List (Name × Pro
     class_description_stable T c ops w (invRun_of_admissible T ops w hb hs hrun) hops]
   exact ⟨rfl, rfl⟩
 
+/-! ## module-level properties (`group`, `visibility`, custom `Property(...)`, …) -/
+
+/-- **isolated**, module-level part: an admissible operation changes the module properties (the Property objects a
+class is described with, the property values of an instance) of no owner other than its target — defining a subclass
+that overrides a property by a bare value (on any level) or by a new `Property`, instantiating with configured
+property values.  (`hcls`: the class of an instance exists, as in Python.) -/
+theorem isolated_mprops (T : Tables) (w : World) (op : Op) (hadm : Admissible w op) (hb : Bounded w) (hs : Separated w)
+    (o : Owner) (ho : o ≠ op.target)
+    (hcls : ∀ i ir, o = .inst i → w.findInst i = some ir → w.findClass ir.cls ≠ none) :
+    describeM (step T w op) o = describeM w o := by
+  cases o with
+  | cls n =>
+    simp only [describeM, findClass_step_ne T w op n ho]
+    cases hc : w.findClass n with
+    | none => rfl
+    | some cr => exact propDict_views_step T w op hb hs hc (fun _ => none)
+  | inst m =>
+    simp only [describeM, findInst_step_ne T w op m ho]
+    cases hi : w.findInst m with
+    | none => rfl
+    | some ir =>
+      have hex := hcls m ir rfl hi
+      have hfc : (step T w op).findClass ir.cls = w.findClass ir.cls := by
+        apply findClass_step_ne
+        intro h
+        cases op with
+        | define d =>
+          simp only [Op.target, Owner.cls.injEq] at h
+          exact hex (h ▸ hadm)
+        | inst n c cfg => simp [Op.target] at h
+        | setprop i p pa k v => simp [Op.target] at h
+        | addEnum i p m' => simp [Op.target] at h
+      simp only [hfc]
+      cases hc : w.findClass ir.cls with
+      | none => rfl
+      | some cr => exact propDict_views_step T w op hb hs hc (fun n => aget? ir.mvals n)
+
+/-- the module properties of a class are not changed by any admissible sequence of later operations (none of which
+is the definition of that class itself): subclasses overriding them on any level, siblings, instances, mutations -/
+theorem class_mprops_stable (T : Tables) (c : Name) (ops : List Op) (w : World) (hb : Bounded w) (hs : Separated w)
+    (hrun : AdmissibleRun T w ops) (hops : ∀ op ∈ ops, op.target ≠ .cls c) :
+    describeM (run T w ops) (.cls c) = describeM w (.cls c) := by
+  induction ops generalizing w with
+  | nil => rfl
+  | cons op ops ih =>
+    have h1 := isolated_mprops T w op hrun.1 hb hs (.cls c) (fun h => hops op List.mem_cons_self h.symm)
+      (fun i ir h => by cases h)
+    have hp := separated_preserved T w op hrun.1 hb hs
+    have h2 := ih (step T w op) hp.1 hp.2 hrun.2 (fun op' h => hops op' (List.mem_cons_of_mem _ h))
+    simp only [run, List.foldl_cons] at h2 ⊢
+    rw [h2, h1]
+
+/-- what a new instance shows of its module properties: the Property objects of its class, with the values they
+carry overridden by the configured ones — a function of the class and the configuration only -/
+theorem describeM_instantiate (T : Tables) (w : World) (n c : Name) (cfg : List (Name × PropMap)) (hb : Bounded w)
+    (hadm : w.findInst n = none) :
+    describeM (instantiate T w n c cfg) (.inst n) =
+      (describeM w (.cls c)).map (fun nv => (nv.1, ⟨nv.2.prop, aget? (instMVals (describeM w (.cls c)) cfg) nv.1⟩)) := by
+  have hfind : (instantiate T w n c cfg).findInst n =
+      some ⟨n, c, ((instViews T (describeH w (.cls c)) cfg).foldl allocView (w.heap, [])).2,
+        instMVals (describeM w (.cls c)) cfg⟩ := by
+    unfold World.findInst instantiate
+    exact find?_append_new _ _ _ hadm (by simp)
+  simp only [describeM, hfind, findClass_instantiate]
+  cases hc : w.findClass c with
+  | none => rfl
+  | some cr =>
+    simp only [List.map_map]
+    apply List.map_congr_left
+    intro nr hnr
+    have hlt := hb (.cls c) nr.2 (root_reach (propDict_root hc hnr) (self_mem_reachAcc _ _))
+    simp only [Function.comp]
+    rw [propAt_congr ((extends_instantiate T w n c cfg).get hlt)]
+
+/-- **later_instances_fresh**, module-level part: an instance created after any admissible sequence of operations on
+other owners shows the module properties an instance of the same class with the same configuration would have shown
+before them. -/
+theorem later_instances_mprops (T : Tables) (c n : Name) (cfg : List (Name × PropMap)) (ops : List Op) (w : World)
+    (hb : Bounded w) (hs : Separated w) (hrun : AdmissibleRun T w ops) (hops : ∀ op ∈ ops, op.target ≠ .cls c)
+    (h1 : w.findInst n = none) (h2 : (run T w ops).findInst n = none) :
+    describeM (instantiate T (run T w ops) n c cfg) (.inst n) = describeM (instantiate T w n c cfg) (.inst n) := by
+  have hb' : Bounded (run T w ops) := by
+    have key : ∀ (ops : List Op) (w : World), InvRun T w ops → Bounded (run T w ops) := by
+      intro ops w h
+      induction h with
+      | nil w hb _ => exact hb
+      | cons w op ops _ _ _ ih => simpa [run] using ih
+    exact key ops w (invRun_of_admissible T ops w hb hs hrun)
+  rw [describeM_instantiate T _ n c cfg hb' h2, describeM_instantiate T w n c cfg hb h1,
+    class_mprops_stable T c ops w hb hs hrun hops]
+
 /-- the full statement: in any two programs that define their classes with the same bodies (`env`), each in an
 order consistent with inheritance, a class defined by both has the same description in the heap -/
 def order_independent_statement : Prop :=
@@ -120,7 +212,9 @@ def order_independent_statement : Prop :=
       describeH (run T {} ops1) (.cls n) = describeH (run T {} ops2) (.cls n)
 
 /-- proved part of `order_independent_statement`, at value level, for whole programs: what
-`__init_subclass__` computed for a class (all accessibles with merged properties, datatypes, export names, order:
+`__init_subclass__` computed for a class (all accessibles with merged properties, datatypes, export names, order, and
+`propertyDict` — every module property with its value, default, external name, export flag and the class whose
+`__dict__` holds the Property object:
 `ClassRec.pure`, the value the heap layout is made from) is `pureOf env` — a function of the class bodies along
 its MRO only — whatever else was defined or instantiated or mutated, in whatever order consistent with
 inheritance.  Hence any two such programs agree on it.
@@ -194,5 +288,57 @@ example : (run exT {} exOps).heap.length = 11 ∧ (run exT {} exOps).classes.len
 example : ((describeH (run exT {} exOps) (.inst "i1")).map (fun nv => nv.2.bind (·.tree) |>.map (·.props))) = [some [("max", "2")]] ∧
     ((describeH (run exT {} exOps) (.inst "i2")).map (fun nv => nv.2.bind (·.tree) |>.map (·.props))) = [some [("max", "5")]] := by
   decide +kernel
+
+/-! ### module properties on two levels, a limits parameter, a member mutation -/
+
+def pGroup : PropV := ⟨none, "\"\"", "group", "true"⟩
+def limTree : DTree := .node "limits" [] [.node "double" [("min", "-1000"), ("max", "1000")] [] []] []
+def dM : ClassDecl := ⟨"M", ["M"], true, [("group", .prop pGroup)]⟩
+def dP : ClassDecl := ⟨"P", ["P", "M"], true,
+  [("group", .value "\"cryo\"" false none), ("lim", .param (some "\"l\"") (some limTree) [] true)]⟩
+def dQ : ClassDecl := ⟨"Q", ["Q", "P", "M"], true, [("group", .value "\"magnet\"" false none)]⟩
+
+/-- a root class with the property `group`, a class setting it by a bare value, an instance, a subclass setting it by
+a bare value again (the second level), an instance configured with a value of its own, a run-time change of the element
+datatype of the limits of the first instance, an instance of the subclass -/
+def exOps2 : List Op :=
+  [.define dM, .define dP, .inst "j1" "P" [], .define dQ, .inst "j2" "P" [("group", [("value", "\"x\"")])],
+   .setprop "j1" "lim" [1] "max" "25", .inst "j3" "Q" []]
+
+/-- the program is admissible (hypothesis of `isolated_mprops`, `class_mprops_stable`, `later_instances_mprops`;
+`Bounded`/`Separated` hold in the empty world: `empty_world_ok`) … -/
+example : AdmissibleRun exT {} exOps2 := by
+  refine ⟨?_, ?_, ?_, ?_, ?_, trivial, ?_, trivial⟩ <;>
+    exact Option.isNone_iff_eq_none.1 (by decide +kernel)
+
+/-- … every instance has a class (hypothesis `hcls` of `isolated_mprops`) … -/
+example : ∀ ir ∈ (run exT {} exOps2).insts, ((run exT {} exOps2).findClass ir.cls).isSome = true := by decide +kernel
+
+/-- … and it shows what it should: the class `P` still carries `cryo` after `Q(P)` was defined with `magnet`, and so do
+its instances created before and after; the configured value is seen in `j2` only; three distinct Property objects -/
+example :
+    ((describeM (run exT {} exOps2) (.cls "M")).map (fun nv => nv.2.prop.bind (·.value))) = [none] ∧
+    ((describeM (run exT {} exOps2) (.cls "P")).map (fun nv => nv.2.prop.bind (·.value))) = [some "\"cryo\""] ∧
+    ((describeM (run exT {} exOps2) (.cls "Q")).map (fun nv => nv.2.prop.bind (·.value))) = [some "\"magnet\""] ∧
+    ((describeM (run exT {} exOps2) (.inst "j1")).map (fun nv => nv.2.value)) = [some "\"cryo\""] ∧
+    ((describeM (run exT {} exOps2) (.inst "j2")).map (fun nv => nv.2.value)) = [some "\"x\""] ∧
+    ((describeM (run exT {} exOps2) (.inst "j3")).map (fun nv => nv.2.value)) = [some "\"magnet\""] ∧
+    ((describeM (run exT {} exOps2) (.inst "j2")).filterMap exportM) = [("group", "\"x\"")] ∧
+    (((run exT {} exOps2).classes.flatMap (fun c => c.propDict.map (·.2))).eraseDups.length = 3) := by
+  decide +kernel
+
+/-- kind and the properties of the members, as far as the example needs them -/
+def shape (t : DTree) : String × List PropMap := (t.kind, t.children.map (·.props))
+
+/-- the member mutation (path `[1]` of a limits datatype: its one, doubly used member) is seen in `j1` only, in both
+exported members; `j2` and the class keep the declared limits -/
+example :
+    ((describeH (run exT {} exOps2) (.inst "j1")).map (fun nv => nv.2.bind (·.tree) |>.map (fun t => shape t.exported))) =
+      [some ("tuple", [[("min", "-1000"), ("max", "25")], [("min", "-1000"), ("max", "25")]])] ∧
+    ((describeH (run exT {} exOps2) (.inst "j2")).map (fun nv => nv.2.bind (·.tree) |>.map shape)) =
+      [some ("limits", [[("min", "-1000"), ("max", "1000")]])] ∧
+    ((describeH (run exT {} exOps2) (.cls "P")).map (fun nv => nv.2.bind (·.tree) |>.map shape)) =
+      [some ("limits", [[("min", "-1000"), ("max", "1000")]])] := by
+  refine ⟨?_, ?_, ?_⟩ <;> decide +kernel
 
 end Frappy.Props.C09
